@@ -340,8 +340,28 @@ class Machine(object):
 
     def flush(self, kind, via_sched):
         items = self.pending.pop(kind, [])
-        self.flog.append((kind, tuple(sorted(it.lid for it in items)), via_sched))
         mode = self.prog.flushmodes.get(kind, "ok")
+        if mode == "hooknested" and via_sched:
+            # a before-flush subscriber synchronously calls a function that waits for an item of another kind (and
+            # swallows its failure): nested scheduler flushes happen before this batch's flush body is entered
+            self.nested_depth = getattr(self, "nested_depth", 0) + 1
+            if self.nested_depth <= 2:
+                other = "b" if kind != "b" else "a"
+                it = RItem(other, -1 - len(self.flog), "ok")
+                self.pending.setdefault(other, []).append(it)
+                while not it.done:
+                    if self.ci >= len(self.choices):
+                        raise Diverged("reference needs a nested flush #%d (before-flush hook) but the implementation made only %d scheduler flushes"
+                                       % (self.ci, len(self.choices)))
+                    k = self.choices[self.ci]
+                    self.menus.append(None)
+                    self.ci += 1
+                    if not self.pending.get(k):
+                        raise Diverged("implementation flushed kind %s at nested decision %d (before-flush hook) but the reference has no pending item of that kind"
+                                       % (k, self.ci - 1))
+                    self.flush(k, True)
+            self.nested_depth -= 1
+        self.flog.append((kind, tuple(sorted(it.lid for it in items)), via_sched))
         if mode == "nested":
             self.nested_depth = getattr(self, "nested_depth", 0) + 1
             if self.nested_depth <= 2:
@@ -375,6 +395,8 @@ class Machine(object):
                 it.err = ("flush", kind)
             elif mode == "raiseB":
                 it.err = ("flushB", kind)
+            elif mode in ("fcancel", "fcancelraise") or (mode == "setfcancel" and it.mode == "unset"):
+                it.err = ("flushcancel", kind)
             elif it.mode == "ok":
                 it.val = ("i", it.lid)
             elif it.mode == "err":
